@@ -7,6 +7,7 @@ import GrVerif.Proofs.CodeLoop
 import GrVerif.Proofs.RulesLoad
 import GrVerif.Proofs.GlyphLoad
 import GrVerif.Proofs.FaceLoad
+import GrVerif.Proofs.GlyphGfx
 import GrVerif.Props.C13
 import GrVerif.Props.C14
 /-!
@@ -202,6 +203,14 @@ theorem face_loading_total (silf gloc glat feat sill : List Nat) (numGlyphsGraph
     (hb : ∀ x ∈ gloc, x < 256) (hs : gloc.length < 18446744073709551616) :
     ∃ r, loadFace silf gloc glat feat sill numGlyphsGraphics preload = .ok r :=
   loadFace_total silf gloc glat feat sill numGlyphsGraphics preload hb hs
+
+/-- **the graphics half of `read_glyph`** – `TtfUtil::LocaLookup`, `GlyfLookup`, `GlyfBox` and `HorMetrics` as the glyph cache uses them: for
+every glyph id and all bytes of `head`, `hhea`, `hmtx`, `loca`, `glyf` of the sizes `TtfUtil::CheckTable` insists on (`head ≥ 54`, `hhea ≥ 36`,
+`glyf ≥ 10`, every table ≥ 4 bytes), nothing is read outside a table -/
+theorem glyph_graphics_total (head hhea hmtx : List Nat) (glyfLoca : Option (List Nat × List Nat)) (gid : Nat)
+    (h1 : 54 ≤ head.length) (h2 : 36 ≤ hhea.length) (h3 : 4 ≤ hmtx.length) :
+    ∃ r, readGlyphGfx head hhea hmtx glyfLoca gid = .ok r :=
+  readGlyphGfx_total head hhea hmtx glyfLoca gid h1 h2 h3
 
 /-- `sparse` on its own: for every sequence of (key, value) pairs the constructor stays inside its allocation, and every look-up on
 what it built is in bounds -/
